@@ -993,9 +993,88 @@ fn gen_rtt_history(rng: &mut Rng, out: &mut Out, stats: &mut HashMap<String, u64
     *stats.entry("rtt_histories".into()).or_insert(0) += 1;
 }
 
+/// long-term "stories": the handshake is driven to the authenticated state (401 challenge, retry, authenticated
+/// success) and then varied step by step, so that the states behind the handshake (cached parameters, 438, a second 401
+/// with other parameters, malformed challenges, wrongly keyed or stray responses) are reached in most histories instead
+/// of by luck
+fn gen_lt_history(rng: &mut Rng, out: &mut Out, stats: &mut HashMap<String, u64>) {
+    let mut cfg = gen_cfg(rng);
+    cfg.mech = 4;
+    cfg.defaults = false;
+    if cfg.limit < 2 { cfg.limit = 3 }
+    let mut run = Run::new(cfg.clone());
+    out.rec(&run.header());
+    let mut now: u64 = rng.below(1000);
+    let step = (cfg.rto / 5).max(1);
+    let mut srv = Server { realm: 1, nonce: 0, algs: None, alg: Alg::Md5 };
+    let challenge = |rng: &mut Rng, srv: &mut Server, change: bool| -> Vec<A> {
+        if change {
+            srv.algs = rng.pick(&[None, Some(vec![Alg::Md5, Alg::Sha256]), Some(vec![Alg::Sha256]), Some(vec![Alg::Md5]), Some(vec![Alg::Other(7), Alg::Md5])]).clone();
+            srv.alg = match &srv.algs { None => Alg::Md5, Some(l) => if l.contains(&Alg::Sha256) { Alg::Sha256 } else { Alg::Md5 } };
+        }
+        srv.nonce += 1;
+        let cookie = if srv.algs.is_some() { *rng.pick(&[2u32, 4, 2, 4, 1]) } else { *rng.pick(&[0u32, 1, 3, 0, 3]) };
+        let mut a = vec![A::ErrorCode(401), A::Realm(srv.realm), A::Nonce(srv.nonce, cookie)];
+        if let Some(l) = &srv.algs { a.push(A::PwdAlgs(l.clone())) }
+        a
+    };
+    let signed = |srv: &Server, mut a: Vec<A>, key: KeyD| -> Vec<A> { if srv.algs.is_some() { a.push(A::Sha(key)) } else { a.push(A::Mi(key)) } a };
+    let good = |srv: &Server| KeyD::Lt(srv.realm, 0, srv.alg.clone());
+    let mut send = |run: &mut Run, out: &mut Out, rng: &mut Rng, now: &mut u64| -> Option<u32> {
+        *now += step;
+        run.apply(out, &Op::Send { now: *now, method: 1, room: true, attrs: if rng.chance(1, 4) { gen_app(rng) } else { vec![] } });
+        run.outstanding.last().copied()
+    };
+    let reply = |run: &mut Run, out: &mut Out, now: &mut u64, id: u32, class: u8, attrs: Vec<A>| {
+        *now += step / 2 + 1;
+        run.apply(out, &Op::Recv { now: *now, decodable: true, class, method: 1, id, attrs });
+    };
+    // handshake
+    if let Some(id) = send(&mut run, out, rng, &mut now) { let a = challenge(rng, &mut srv, true); reply(&mut run, out, &mut now, id, 3, a) }
+    if let Some(id) = send(&mut run, out, rng, &mut now) { let k = good(&srv); let a = signed(&srv, vec![], k); reply(&mut run, out, &mut now, id, 2, a) }
+    // variations
+    for _ in 0..rng.range(3, 12) {
+        let Some(id) = send(&mut run, out, rng, &mut now) else { continue };
+        let fp = if cfg.fp { vec![A::Fp(true)] } else { vec![] };
+        let with_fp = |mut a: Vec<A>| -> Vec<A> { a.extend(fp.clone()); a };
+        match rng.below(12) {
+            0 | 1 => { let k = good(&srv); reply(&mut run, out, &mut now, id, 2, with_fp(signed(&srv, vec![], k))) }
+            2 => { let k = good(&srv); reply(&mut run, out, &mut now, id, 3, with_fp(signed(&srv, vec![A::ErrorCode(400)], k))) }
+            3 => { // malformed challenge: realm or nonce missing (must be discarded and change nothing)
+                let mut a = challenge(rng, &mut srv, false);
+                srv.nonce -= 1;
+                a.remove(if rng.chance(1, 2) { 1 } else { 2 });
+                reply(&mut run, out, &mut now, id, 3, with_fp(a))
+            }
+            4 | 5 => { let change = rng.chance(1, 2); if change && rng.chance(1, 4) { srv.realm = 3 - srv.realm.min(2) } let a = challenge(rng, &mut srv, change); reply(&mut run, out, &mut now, id, 3, with_fp(a)) }
+            6 | 7 => { // stale nonce, authenticated or not
+                srv.nonce += 1;
+                let a = vec![A::ErrorCode(438), A::Nonce(srv.nonce, *rng.pick(&[0u32, 1, 2, 3, 4]))];
+                let a = if rng.chance(1, 2) { let k = good(&srv); signed(&srv, a, k) } else { a };
+                reply(&mut run, out, &mut now, id, 3, with_fp(a))
+            }
+            8 => { let k = pick_key(rng, 4, &srv); reply(&mut run, out, &mut now, id, 2, with_fp(signed(&srv, vec![], k))) }
+            9 => reply(&mut run, out, &mut now, id, 1, with_fp(vec![])),               // an indication with the id of the request
+            10 => { // a stray copy for a finished transaction, then the real answer
+                if let Some(&old) = run.finished.last() { let a = challenge(rng, &mut srv, true); reply(&mut run, out, &mut now, old, 3, with_fp(a)) }
+                let k = good(&srv); reply(&mut run, out, &mut now, id, 2, with_fp(signed(&srv, vec![], k)))
+            }
+            _ => { // nothing arrives: let the timer run once or to the end
+                let mut guard = 0;
+                while let Some(a) = run.armed { guard += 1; if guard > 12 || !run.outstanding.contains(&id) { break } now = now.max(a); run.apply(out, &Op::Tmo { now }); if rng.chance(1, 3) { break } }
+            }
+        }
+    }
+    *stats.entry("lt_stories".into()).or_insert(0) += 1;
+    *stats.entry("finished_transactions".into()).or_insert(0) += run.finished.len() as u64;
+}
+
 fn gen_history(rng: &mut Rng, out: &mut Out, stats: &mut HashMap<String, u64>) {
     if rng.chance(1, 10) {
         return gen_rtt_history(rng, out, stats);
+    }
+    if rng.chance(1, 8) {
+        return gen_lt_history(rng, out, stats);
     }
     let cfg = gen_cfg(rng);
     let mut run = Run::new(cfg.clone());
